@@ -255,13 +255,18 @@ def check_reentrant_new(ctx: Check, tree: Tree) -> None:
         if new is None:
             continue
         for node in walk_function(new.node):
-            if not (isinstance(node, ast.If) and isinstance(node.test, ast.Call) and unparse(node.test.func) == "isinstance" and len(node.test.args) == 2):
+            if not isinstance(node, ast.If):
                 continue
-            subject = unparse(node.test.args[0])
-            kinds = node.test.args[1]
+            test, kind_branch, other_branch = node.test, node.body, node.orelse
+            while isinstance(test, ast.UnaryOp) and isinstance(test.op, ast.Not):  # `if not isinstance(..): <other> else: <kind>`
+                test, kind_branch, other_branch = test.operand, other_branch, kind_branch
+            if not (isinstance(test, ast.Call) and unparse(test.func) == "isinstance" and len(test.args) == 2):
+                continue
+            subject = unparse(test.args[0])
+            kinds = test.args[1]
             kind_names = {unparse(k) for k in (kinds.elts if isinstance(kinds, ast.Tuple) else [kinds])}
             stored = None
-            for st in node.body:
+            for st in kind_branch:
                 if isinstance(st, ast.Assign) and isinstance(st.value, ast.Call) and unparse(st.value.func) in {"sp.Tuple", "Tuple", "sympy.Tuple"}:
                     stored = st
             if stored is None:
@@ -270,7 +275,7 @@ def check_reentrant_new(ctx: Check, tree: Tree) -> None:
             accepts = bool(kind_names & {"sp.Tuple", "Tuple", "sympy.Tuple"}) or any(
                 isinstance(o, ast.If) and isinstance(o.test, ast.Call) and unparse(o.test.func) == "isinstance" and unparse(o.test.args[0]) == subject
                 and {"sp.Tuple", "Tuple", "sympy.Tuple"} & {unparse(k) for k in (o.test.args[1].elts if isinstance(o.test.args[1], ast.Tuple) else [o.test.args[1]])}
-                for o in node.orelse)
+                for o in other_branch)
             ctx.verdict(accepts, "R-REENTRANT", f"{q}.__new__::isinstance({subject}, {sorted(kind_names)})", tree.loc(node),
                         f"{cls.name}.__new__: `{subject}` of kind {sorted(kind_names)} is stored as `{unparse(stored.value)[:40]}`; the stored sp.Tuple is accepted by the same dispatch when the instance is rebuilt from its args",
                         None if accepts else "the stored sp.Tuple re-enters the branch for scalar indices: with a parent of known shape `-axis_size <= idx` raises TypeError - func(*args), pickle.loads, xreplace and subs of such a slice fail")
